@@ -474,6 +474,12 @@ def ilStore (shape : Shape) (e : SExpr) (tag : NameTag) (rvars : List RVar) (uni
   let inames := ins.1
   (hoistBounds ns uniq e (isEmptyShape shape) rvars ins.2).bind fun hb =>
   let hs := hb.1
+  -- a generated name (unique reduction iname, bound temporary) that is also a name of the
+  -- expression (a binding, a reduction variable) would capture it: outside the model
+  if uniq.any (fun p => (rvars.map (·.name)).contains p.2 || (lookupNs ns p.2).isSome) ||
+      hs.any (fun h => (lookupNs ns h.temp).isSome) then
+    .unmodelled "a generated name is also a name of the expression"
+  else
   let ns' := ns ++ hs.map fun h => (h.temp, Impl.stored h.temp [h.id])
   let e' := renameRed uniq (replaceBounds hb.2.1 e)
   match gen ns' [] e' with
